@@ -123,6 +123,7 @@ def dynframe(name, fmode, nops, kmax=5, vmax=3, idxl=10, tiers=Q, timeout=1200):
 
 def seg(name, kt, fbits=32, tiers=Q, timeout=900):
     d = dict(KT[kt]); d.update(FLT='float' if fbits == 32 else 'double', FLT_BITS=fbits)
+    if KT[kt]['KEY_BITS'] >= 32: d.update(SLOPE_POW2=1)
     return dict(name=name, unit='seg.cpp', harness='h_seg.c', defs=d, narrow=0, roots=['@u_seg'], timeout=timeout, tiers=tiers,
                 bounds='Segment::operator() for EVERY %s key triple key <= k1 <= k2 (full width, reserved value excluded), slopes 0 and (1+m/8)*2^e, m 0..7, e -12..10 (%d-bit type), every intercept < 2^20' % (kt, fbits))
 
@@ -166,7 +167,7 @@ JOBS['C11'] = [mapped('mapped_u8_n2', 'uint8_t', 2), mapped('mapped_i8_n2', 'int
 
 JOBS['C09'] = [bucketing('bucket_n2_t3', 2, 3), bucketing('bucket_n2_t4', 2, 4), bucketing('bucket_n3_t3', 3, 3),   bucketing('bucket_n4_t6', 4, 6, tiers=T, timeout=4000)]
 EF_PROBE = [sdslidx('ef_u16_n1', 'eliasfano.cpp', 'u_eliasfano', 'uint16_t', 1, mem_gb=45, timeout=3600), sdslidx('ef_u16_n2', 'eliasfano.cpp', 'u_eliasfano', 'uint16_t', 2, mem_gb=45, timeout=3600, tiers=T)]
-SEG_JOBS = [seg('seg_' + k.replace('_t', ''), k) for k in ('int8_t', 'uint8_t')] + [seg('seg_i8_dbl', 'int8_t', 64)] + [seg('seg_' + k.replace('_t', ''), k, tiers=T, timeout=3000) for k in ('int16_t', 'uint16_t')]
+SEG_JOBS = [seg('seg_' + k.replace('_t', ''), k) for k in ('int8_t', 'uint8_t', 'uint64_t', 'int64_t', 'int32_t')] + [seg('seg_i8_dbl', 'int8_t', 64)] + [seg('seg_' + k.replace('_t', ''), k, tiers=T, timeout=3000) for k in ('int16_t', 'uint16_t')]
 JOBS['C01'] += SEG_JOBS
 JOBS['C02'] = JOBS['C01'] + [j_ for j_ in JOBS['C03'] if j_['name'] == 'mkseg_n3_e1_chunk02']
 JOBS['C07'] = [e2e('e2e_u8_n3_e1_r1', 'uint8_t', 3, 1, 1), e2e('e2e_i8_n2_e1_r1', 'int8_t', 2, 1, 1), e2e('e2e_u8_n4_e1_r1', 'uint8_t', 4, 1, 1, tiers=T, timeout=3000)]
@@ -176,7 +177,7 @@ JOBS['C20'] = [e2e('reject_u8_n%d' % n, 'uint8_t', n, 1, 1, extra=dict(ALLOW_SEN
               [e2e('reject_i8_n2', 'int8_t', 2, 1, 0, extra=dict(ALLOW_SENTINEL=1))]
 JOBS['C20'] += [pla('pla_reject_k3_e1', 3, epsfix=1, ymax=6, maximality=False, reject=True)]
 JOBS['C20'] += [dynrej('dynrej_base', 0), dynrej('dynrej_bulk', 1, 3), dynrej('dynrej_tomb', 2), dynrej('dynrej_range', 3)]
-JOBS['C18'] = [cpgm('cpgm_u32_n2', 'uint32_t', 'uint32', 2), cpgm('cpgm_i32_n2', 'int32_t', 'int32', 2), cpgm('cpgm_u64_n2_null_e1', 'uint64_t', 'uint64', 2, epslo=1, ephi=1, spread=7, sentinel=True), cpgm('cpgm_u64_n2_null', 'uint64_t', 'uint64', 2, sentinel=True, tiers=T, timeout=3000),
+JOBS['C18'] = [cpgm('cpgm_u32_n2', 'uint32_t', 'uint32', 2), cpgm('cpgm_i32_n2', 'int32_t', 'int32', 2), cpgm('cpgm_u64_n2_null_e1', 'uint64_t', 'uint64', 2, epslo=1, ephi=1, spread=7, sentinel=True, tiers=T, timeout=3000), cpgm('cpgm_u64_n2_null', 'uint64_t', 'uint64', 2, sentinel=True, tiers=T, timeout=3000),
                cpgm('cpgm_i64_n3', 'int64_t', 'int64', 3, tiers=T, timeout=3000), cpgm('cpgm_u32_n2_eps4096', 'uint32_t', 'uint32', 2, epslo=1, ephi=4096, tiers=T, timeout=3000)]
 
 E2E_OUT = ['n >= 5 keys end to end (n = 5 ran out of memory at 14 GB)', 'Epsilon > 1 and EpsilonRecursive > 1', 'key types wider than 8 bits end to end (C18 covers 32/64-bit keys at n <= 3 through the C interface)',
